@@ -145,11 +145,12 @@ func vh_C20_L4_reset_wakes_every_reader()    { vh_C14_L2_deferred_reset() }
 // goroutine; at any point where it has released a lock and holds none, the second call may
 // run to completion (vPreemptWith). What each pair must guarantee whichever way they
 // interleave:
-//   OpenStream(id) x OpenStream(id): both return the same stream, which is the registered one;
-//   OpenStream(id) x inbound DATA for id: one stream, it holds the data;
-//   WriteSCTP x WriteSCTP on one stream (blocking-write mode or not): both accepted, with two
-//     consecutive sequence numbers, each used once;
-//   WriteSCTP x Close: the write is either rejected or queued before the reset marker.
+//
+//	OpenStream(id) x OpenStream(id): both return the same stream, which is the registered one;
+//	OpenStream(id) x inbound DATA for id: one stream, it holds the data;
+//	WriteSCTP x WriteSCTP on one stream (blocking-write mode or not): both accepted, with two
+//	  consecutive sequence numbers, each used once;
+//	WriteSCTP x Close: the write is either rejected or queued before the reset marker.
 func vh_C20_L5_racing_api_calls() {
 	a, _ := vNewAssocOpts(vAssocOpts{blockWrite: vPick(2) == 1})
 	switch vPick(4) {
@@ -231,4 +232,35 @@ func vh_C20_L5_racing_api_calls() {
 		}
 		vcover("write-close")
 	}
+}
+
+// C20.L6: the timer goroutine itself. The association is built with its timer loop live
+// (vGoLive: it runs whenever the harness goroutine waits); data is put in flight, which arms
+// the tail-loss-probe deadline; then time passes. The real timerLoop must fire the callback
+// with neither the timer mutex nor any other lock held (the callback takes the association
+// lock and re-arms the deadlines itself), and leave every lock free.
+func vh_C20_L6_timer_loop_fires_callbacks_unlocked() {
+	vGoLive = true
+	cfg := &Config{NetConn: &vConn{}, LoggerFactory: vLoggerFactory{}, Name: "v"}
+	a := createAssociationFromConfigWithTsn(cfg, []uint32{0xfffffffe, 5}[vPick(2)])
+	a.payloadQueue = newReceivePayloadQueue(192)
+	a.peerVerificationTag = 7
+	a.sourcePort, a.destinationPort = 5000, 5000
+	a.setState(established)
+	a.srtt.Store(float64(1)) // a measured round trip: the probe deadline is 2 ms + the worst-case delayed ack
+	s, err := a.OpenStream(1, PayloadTypeWebRTCBinary)
+	vassert(err == nil, "open stream")
+	_, werr := s.WriteSCTP(nondetBytes(1), PayloadTypeWebRTCBinary)
+	vassert(werr == nil, "write accepted")
+	a.cwnd, a.rwnd = 1<<20, 1<<20
+	_ = vWriterPass(a)
+	vassert(a.inflightQueue.size() == 1 && !a.ptoDeadline.IsZero(), "data in flight, tail-loss probe armed")
+	<-time.After(time.Second) // nothing arrives: the probe deadline passes while this goroutine waits
+	a.lock.RLock()
+	fired := a.tlrActive
+	a.lock.RUnlock()
+	vassert(fired, "the timer loop fired the tail-loss probe")
+	vassert(vLocksFree(a, s), "and left every lock free")
+	a.closeWriteLoopOnce.Do(func() { close(a.closeWriteLoopCh) })
+	vcover("end")
 }
